@@ -150,7 +150,7 @@ PROPS = {
     },
     "C08": {
         "modules": ["SxVerif.Props.C08"],
-        "components": ["engine"],
+        "components": ["engine", "e2eapp"],
         "trusted_base": [
             "modelled, not verified: Go channel / select / WaitGroup / context semantics as the transition system Model/Engine.lean (bounded FIFO with closed flag, send-on-closed and double close = panic, a select may take any ready case, parent cancel propagates to the derived ctx atomically); one step = one channel operation, call or timer event of one goroutine",
             "the generator and the `requests` channel are abstracted to the list of requests still to be delivered (its own plumbing is C01/C13); `Scan` is an oracle with arbitrary latency (any interleaving); the rate limiter only delays `Scan` (rateLimitScanner.Scan = Take; delegate — tied by sxfacts); the flush timer branch of LogResults and zap's error sink are not modelled",
@@ -331,7 +331,7 @@ PROPS = {
     },
     "C09": {
         "modules": ["SxVerif.Props.C09"],
-        "components": ["socks"],
+        "components": ["socks", "e2eapp"],
         "trusted_base": [
             "modelled, not verified: net.Dialer.DialContext (Timeout 0 = none), net.TCPConn Read/Write/SetReadDeadline/SetWriteDeadline/SetLinger/Close and the Linux semantics of close(2) under SO_LINGER (blocks for a positive linger time, resets at once for 0), encoding/binary.Read of a 2-byte struct = one io.ReadFull = the io.ReadAtLeast loop (go1.23 source), goroutine watchdog = the operation in flight ends when the context is cancelled (Model/Socks.lean); validated by running the real Scanner.Scan against scripted loopback servers and the real socksConn over a recording in-memory conn",
             "constants regenerated from pkg/scan/socks5/{socks5.go,message.go} by sxfacts (Generated/Socks.lean): NewMethodRequest arguments, operands of the decision, SetLinger argument, MethodReply layout",
@@ -367,7 +367,7 @@ PROPS = {
     },
     "C15": {
         "modules": ["SxVerif.Props.C15"],
-        "components": ["limiter", "parse", "e2erate"],
+        "components": ["limiter", "parse", "e2erate", "e2eapp"],
         "trusted_base": [
             "modelled, not verified: go.uber.org/ratelimit v0.2.0 limiter_atomic.go (newAtomicBased, Take) as Model/Limiter.lean — one state update per Take as a function of the loaded state and the clock reading of the successful CAS iteration; time.Time/time.Duration as unbounded integers (ns since Go's zero time)",
             "Mathlib v4.33.0 (Finset.Icc cardinality, min'/max') for the order-free corollary C15_any_set only — checked by the same kernel",
@@ -386,7 +386,7 @@ PROPS = {
     },
     "C10": {
         "modules": ["SxVerif.Props.C10"],
-        "components": ["httpprobe"],
+        "components": ["httpprobe", "e2eapp"],
         "trusted_base": [
             "modelled, not verified: net/http client + transport (connection errors, header/body stalls, redirects, 204/304 bodies), crypto/tls, encoding/json (Decoder.Decode reads one value, null into map/struct is a no-op, one byte of look-ahead after literals and numbers, Token at end of body, Unmarshal of a whole body) and the moby client (Ping HEAD->GET fallback, API-version negotiation, checkResponseErr, ensureReaderClosed, ServerVersion) behind the outcome abstraction of Model/HttpProbe.lean: per request an exchange = chain of hops (refused | protocol mismatch | close | RST | non-HTTP bytes | stalled / partial headers | response(status, delay, body class, id, ending)), body class in {object, {}, object+ws, object+trailing data, ill-typed object, null, null+tail, array, scalar, truncated, garbage, empty}, ending in {eof, stall, endless}",
             "call structure, deadlines, record literals, URLs and HTTP client settings of elastic.go / docker.go regenerated by sxfacts (Generated/HttpProbe.lean) and compared with Model/HttpProbe.Assumed by Props/C10.C10_wiring",
@@ -403,6 +403,7 @@ PROPS = {
     "C18": {
         "modules": ["SxVerif.Props.C18"],
         "components": ["parse", "e2erate", "e2efill"],
+        "components": ["parse", "e2eapp"],
         "trusted_base": [
             "modelled, not verified: strconv.ParseUint(.,10,16) / ParseInt(.,10,32), strings.Split/TrimSpace/ToLower, bufio.Scanner line splitting with the 64 KiB limit, strconv.Unquote on the quoted payload (Model/Parse.lean); time.ParseDuration is a parameter `dur` of the rate theorems (the harness passes the real function's answer)",
             "flag tables regenerated from command/config.go and command/tcp.go by sxfacts (Generated/Flags.lean)",
@@ -430,3 +431,18 @@ PROPS = {
         "level_note": "Trusted: Lean kernel; the snapshot abstraction of the Go runtime / netlink (differentially validated in namespaces, not proved); fails closed when `unshare -n` is unavailable (component exits 3 -> correspondence violation).",
     },
 }
+
+# e2eapp: the real `sx socks | elastic | docker` binary against scripted servers in a private network namespace
+# (harness/cmd/sxdiff/e2eapp.go, Spec/AppRun.lean) serves five properties; what it adds to each level text:
+_E2EAPP = {
+    "C08": " End to end (e2eapp): the real commands with the real loggers against farms of scripted targets (ok / negative / refused / tarpit / garbage / SYN dropped; http and https; subnet, address-file and pairs-file modes; --exclude; default and larger exit delay; 250-500 failed probes within a second): the JSON records on stdout are the detecting targets once each and the error records on stderr are one per failed probe.",
+    "C09": " End to end (e2eapp): `sx socks -t T` (T given, or the default shown by --help) against a SYN-dropping address and a tarpit: the process ends within 4*T + exit delay + slack; records carry the probed address and port.",
+    "C10": " End to end (e2eapp): `sx elastic|docker` over http and https (self-signed) against scripted servers: records carry the probed scheme, address and port; with -t T given or left at the default shown by --help a target that never answers holds the run for at most T + exit delay + slack.",
+    "C15": " End to end (e2eapp): `--rate N/W` on the real socks / elastic / docker commands in all three target modes (subnet x ports, address file x ports, pairs file without ports), 1 and several workers: sorted first-connection times at the listeners obey (k-2-10)*floor(W/N) - 50 ms on every window (weaker than C15_sequential for one worker and than C15_wire + C15_any_set for several).",
+    "C18": " End to end (e2eapp): the rate written on the command line (`N/s`, `N/500ms`, `N/2s`; --rate and -r) is the rate observed at the listeners of real socks / elastic / docker runs.",
+}
+for _pid, _txt in _E2EAPP.items():
+    PROPS[_pid]["level_text"] += _txt
+PROPS["C08"]["assumptions"] = PROPS["C08"]["assumptions"] + [
+    "e2eapp demands printed records only at the default exit delay or larger (the property's own clause), with a handful of records per run"]
+
